@@ -18,4 +18,5 @@ KAq == [nwg |-> 2, n |-> 2, s |-> 2, v |-> 1, l |-> 3]
 MCKernelsQ == {KAq, KB}
 NoDev == {}
 AsImplemented == {"MixedBatchPanics"}
+ParkedDev == {"CompleteIgnoresParked"}
 =============================================================================
